@@ -235,6 +235,12 @@ def kill_conds_on_assign(node, state):
             # idiom: an exception instance built for a deferred raise is a
             # truthy, non-None object
             out |= {("cond", "%s is None" % x, False), ("cond", x, True)}
+    if node.kind == "stmt" and isinstance(a, ast.AugAssign) and isinstance(
+            a.target, ast.Name) and isinstance(
+                a.op, (ast.Add, ast.Sub, ast.Mult, ast.FloorDiv, ast.LShift,
+                       ast.RShift, ast.BitAnd, ast.BitOr, ast.BitXor)):
+        # x += 1 succeeded, so x is a number (not None)
+        out.add(("cond", "%s is None" % a.target.id, False))
     return frozenset(out)
 
 
